@@ -924,21 +924,47 @@ fn find_listener(k: &Kernel, local: SocketAddr) -> Option<Fd> {
     None
 }
 
-/// Count child sockets owned by `listener_fd`'s tuple that are still
+/// Count child sockets owned by `listener_fd` that are still
 /// handshaking (`SynReceived`). Charged against the listener's backlog
 /// alongside the accept-ready queue.
+///
+/// Children are indexed under the concrete destination address of
+/// their SYN. A wildcard listener owns children on every local
+/// address, so all of them count — otherwise simultaneous handshakes
+/// to different addresses of the host (or to loopback and a public
+/// address) each see an empty backlog and overfill the accept queue.
 fn count_children(k: &Kernel, listener_fd: Fd, local: SocketAddr) -> usize {
-    k.sockets
-        .connections_on(local)
-        .filter(|(_, fd)| {
-            if *fd == listener_fd {
-                return false;
-            }
-            k.sockets
-                .get(*fd)
+    let handshaking = |fd: Fd| {
+        fd != listener_fd
+            && k.sockets
+                .get(fd)
                 .and_then(|s| s.tcb.as_ref())
                 .map(|t| t.state == TcpState::SynReceived)
                 .unwrap_or(false)
+    };
+    let wildcard = k
+        .sockets
+        .get(listener_fd)
+        .and_then(|s| s.bound.as_ref())
+        .map(|b| b.local_addr.is_unspecified())
+        .unwrap_or(false);
+    if !wildcard {
+        return k
+            .sockets
+            .connections_on(local)
+            .filter(|(_, fd)| handshaking(*fd))
+            .count();
+    }
+    k.sockets
+        .iter()
+        .filter(|(fd, s)| {
+            let Some(bind) = s.bound.as_ref() else {
+                return false;
+            };
+            handshaking(*fd)
+                && bind.ty == Type::Stream
+                && bind.local_port == local.port()
+                && bind.local_addr.is_ipv4() == local.is_ipv4()
         })
         .count()
 }
